@@ -59,3 +59,78 @@ Definition path_cost (p : spath) : N := segs_cost (sp_segs p).
     equal fingerprints imply equal cost *)
 Definition fp_cost_consistentb (cand : list spath) : bool :=
   forallb (fun x => forallb (fun y => negb (sp_fp x =? sp_fp y) || (path_cost x =? path_cost y)) cand) cand.
+
+(** ** provenance oracle (on the implementation's output, against the INPUT segments)
+    Every segment of a returned path must be, hop field by hop field, a suffix of one input
+    segment with the same timestamp: the regular hop fields of the entries after the cut, and
+    at the cut the regular hop field of that entry or -- with the Peering flag -- the hop field
+    of ONE OF ITS OWN peer entries.  For a peering path the two chosen peer entries must
+    describe the same link from both sides (each names the other's AS and the other's local
+    interface).  Every metadata interface must be an interface of one of the claimed hop
+    fields, labelled with the AS of the entry the hop field comes from. *)
+Record claim := mkClaim { cl_ia : N; cl_peer : option peer; cl_hops : list (N * hopf) }.
+
+Definition ohop_of (h : hopf) : ohop := (hf_exp h, hf_in h, hf_eg h, hf_mac h).
+Definition ohop_eqb' (a b : ohop) : bool :=
+  (oh_exp a =? oh_exp b) && (oh_in a =? oh_in b) && (oh_eg a =? oh_eg b) && (oh_mac a =? oh_mac b).
+
+Fixpoint suffixes {A} (l : list A) : list (list A) :=
+  match l with [] => [] | x :: r => (x :: r) :: suffixes r end.
+
+(** claims of one observed segment against one input segment *)
+Definition seg_claims (o : oseg) (s : segment) : list claim :=
+  if negb (sg_ts s =? os_ts o) then [] else
+  let hops_cons := if cons_dir o then os_hops o else rev (os_hops o) in
+  flat_map (fun suf =>
+    match suf, hops_cons with
+    | ae :: rest, h0 :: hrest =>
+      if negb (list_eqb ohop_eqb' (map (fun e => ohop_of (ae_hf e)) rest) hrest) then [] else
+      let tail := map (fun e => (ae_ia e, ae_hf e)) rest in
+      if peering o
+      then flat_map (fun p => if ohop_eqb' (ohop_of (pe_hf p)) h0
+                              then [mkClaim (ae_ia ae) (Some p) ((ae_ia ae, pe_hf p) :: tail)] else [])
+                    (ae_peers ae)
+      else if ohop_eqb' (ohop_of (ae_hf ae)) h0 then [mkClaim (ae_ia ae) None ((ae_ia ae, ae_hf ae) :: tail)] else []
+    | _, _ => []
+    end) (suffixes (sg_entries s)).
+
+Definition all_claims (inputs : list segment) (o : oseg) : list claim := flat_map (seg_claims o) inputs.
+
+Definition same_link (a b : claim) : bool :=
+  match cl_peer a, cl_peer b with
+  | Some p, Some q =>
+    (pe_ia p =? cl_ia b) && (pe_if p =? hf_in (pe_hf q)) && (pe_ia q =? cl_ia a) && (pe_if q =? hf_in (pe_hf p))
+  | _, _ => false
+  end.
+
+Definition ifaces_claimed (ifs : list (N * N)) (cs : list claim) : bool :=
+  let avail := flat_map (fun c => flat_map (fun '(ia, h) => [(ia, hf_in h); (ia, hf_eg h)]) (cl_hops c)) cs in
+  forallb (fun i => existsb (fun a => (fst a =? fst i) && (snd a =? snd i)) avail) ifs.
+
+Definition provenance_ok (inputs : list segment) (p : opath) : bool :=
+  match map (all_claims inputs) (o_segs p), o_segs p with
+  | [c0], [s0] => negb (peering s0) && existsb (fun a => ifaces_claimed (o_ifs p) [a]) c0
+  | [c0; c1], [s0; s1] =>
+    if peering s0 || peering s1
+    then peering s0 && peering s1
+         && existsb (fun a => existsb (fun b => same_link a b && ifaces_claimed (o_ifs p) [a; b]) c1) c0
+    else existsb (fun a => existsb (fun b => ifaces_claimed (o_ifs p) [a; b]) c1) c0
+  | [c0; c1; c2], [s0; s1; s2] =>
+    negb (peering s0 || peering s1 || peering s2)
+    && existsb (fun a => existsb (fun b => existsb (fun c => ifaces_claimed (o_ifs p) [a; b; c]) c2) c1) c0
+  | _, _ => false
+  end.
+
+(** ** metamorphic oracle: the paths obtained from a subset of the segments are still returned,
+    in the same relative order, when further segments are added (a path may be superseded by
+    one of the same route with a later expiry) *)
+Fixpoint route_subseq (sub full : list opath) : bool :=
+  match sub with
+  | [] => true
+  | p :: sub' =>
+    (fix find (l : list opath) : bool :=
+       match l with
+       | [] => false
+       | q :: l' => if same_route p q && (o_exp p <=? o_exp q) then route_subseq sub' l' else find l'
+       end) full
+  end.
